@@ -59,8 +59,9 @@ Notation lbl := (label_of Z.eqb (fun c : Z => c)).
 Notation pres := (pres T).
 Notation empv := (empv T).
 
-(* the hypotheses under which the searcher calls ruledb.add (C04_recorded_from_table): the rule has
-   children, start is the label of its parent, ends are the labels of its children *)
+(* the hypotheses under which the searcher calls ruledb.add (for every call of every run of the searcher model:
+   RuleDB/SearchHist.v, C04_adds_made_under_add_pre): the rule has children, start is the label of its parent,
+   ends are the labels of ALL its children, in the class database d at the time of the call *)
 Definition add_pre (d : cdbT) (start : Z) (ends : list Z) (r : rule) (cs : list Z) : Prop :=
   WFd d /\ rule_children T r = Some cs /\ lbl d (r_parent r) = Some start /\
   Forall2 (fun c l => lbl d c = Some l) cs ends.
